@@ -234,7 +234,20 @@ static void exact_cases(Harness &H, const std::vector<mpq_class> &x, const std::
   }
 }
 
+// many nodes (size as an alphabet)
+template <size_t order>
+static void many_nodes(Harness &H, size_t n) {
+  std::vector<mpq_class> x{mq(-2)};
+  for (size_t i = 1; i < n; i++) x.push_back(x.back() + (i % 3 == 0 ? mq(1, 2) : i % 3 == 1 ? mq(1) : mq(5, 4)));
+  exact_cases<order>(H, x, "n=" + std::to_string(n) + ";many-nodes", true);
+}
+
 static void run(Harness &H) {
+  for (size_t n : std::vector<size_t>{9, 17}) {
+    many_nodes<1>(H, n);
+    many_nodes<3>(H, n);
+    if (H.thorough()) { many_nodes<2>(H, n); many_nodes<4>(H, n); }
+  }
   std::vector<mpq_class> gaps = H.thorough() ? std::vector<mpq_class>{mq(1), mq(1, 2), mq(3), mq(1, 8)} : std::vector<mpq_class>{mq(1), mq(1, 2), mq(3)};
   size_t nmax = H.thorough() ? 5 : 4;
   all_abscissae(2, nmax, gaps, [&](const std::vector<mpq_class> &x, const std::string &dx) {
